@@ -9,3 +9,7 @@ CONSTANTS
   AtomicSend = TRUE
   TickFix = TRUE
   SwallowAllowed = TRUE
+  Seek <- SeekNone
+  CollOf <- CollOf3
+  JoinLifts = TRUE
+  StartAllFirst = TRUE
